@@ -404,7 +404,7 @@ func dropEmptyNested(m *dynamicpb.Message) {
 
 func c03API(c *Ctx, pf *paramFx) {
 	fx := pf.fx
-	names := []string{"n1", "é日", "~tilde", "q=1&r", "a+b", "x.y-z_0", "(a)!$'*,;@", "0", "latest", "latest"}
+	names := []string{"n1", "é日", "~tilde", "q=1&r", "a+b", "x.y-z_0", "(a)!$'*,;@", "0", "latest", "latest", ".", "..", "...", ".hidden"}
 	outside := []string{"hello world", "50%", "a b+c", "x%2Fy", "what?", "#1"}
 	for i := 0; i < c.N(400, 8000); i++ {
 		shape := []string{"Query", "Star", "Field"}[c.Rng.Intn(3)]
